@@ -1833,11 +1833,24 @@ fn c10_paths(q: &Queried, is_match: &dyn Fn(&str) -> Option<bool>, paths: &[Stri
                 Some("empty-component-counted-as-a-component")
             }
             else if rep_edge_shape || branch_tree_shape {
-                match may(Quirks::default()) {
+                // A path that is outside the documented language only by the *other* listed
+                // matching deviation (a rooted leading tree wildcard accepting a partial
+                // component, which cannot itself move a path out of the depth bounds) counts as
+                // inside it here (thorough tier, seed 2: `/**/(?-ii)c1{*/**}` on `/AEC1`).
+                let rooted_first = q.class_asts.iter().any(|(_, i)| !i.rooting_first.is_empty());
+                let in_language = match may(Quirks::default()) {
+                    Tri::No if rooted_first => may(Quirks { rooted_leading_tree_is_dotstar: true, rep_edge_tree_any_form: false }),
+                    other => other,
+                };
+                match in_language {
                     Tri::Yes if branch_tree_shape => Some("tree-wildcard-inside-branch-miscounted"),
                     Tri::Yes => None,
                     Tri::No => {
-                        match may(Quirks { rooted_leading_tree_is_dotstar: false, rep_edge_tree_any_form: true }) {
+                        let with_edge = match may(Quirks { rooted_leading_tree_is_dotstar: false, rep_edge_tree_any_form: true }) {
+                            Tri::No if rooted_first => may(Quirks { rooted_leading_tree_is_dotstar: true, rep_edge_tree_any_form: true }),
+                            other => other,
+                        };
+                        match with_edge {
                             Tri::Yes if rep_edge_shape => Some("tree-wildcard-at-edge-of-repetition-body-encoded-as-expression-edge"),
                             Tri::Unknown if rep_edge_shape => {
                                 undecided = true;
